@@ -76,7 +76,8 @@ def sGetAttr (st : Strm) : SV → String → M SV
     if a == "random" then pure .modNpRandom
     else if a == "asarray" || a == "array" then pure (.fn .ident) else throw "AttributeError"
   | .modNpRandom, a => if a == "RandomState" then pure (.fn .randomState) else throw "AttributeError"
-  | .rstate ks, a => if a == "random_sample" then pure (.fn (.sample ks)) else throw "AttributeError"
+  | .rstate ks, a =>
+    if a == "random_sample" || a == "uniform" || a == "random" then pure (.fn (.sample ks)) else throw "AttributeError"
   | _, _ => throw "AttributeError"
 
 def sGlobal (n : String) : M SV :=
@@ -99,7 +100,9 @@ def sPrim (st : Strm) : SFn → List SV → List (String × SV) → M SV
   | .lenFn, [.idx req], [] => pure (.int req.length)
   | .getHash, [.str ks], [] => pure (.seedOf ks)
   | .randomState, [], [(_, .seedOf ks)] => pure (.rstate ks)
+  | .randomState, [.seedOf ks], [] => pure (.rstate ks)
   | .sample ks, [.int n], [] => pure (.block ks n.toNat)
+  | .sample ks, [], [(_, .int n)] => pure (.block ks n.toNat)
   | .ident, [.positions ps], [] => pure (.positions ps)
   | .ident, [.values vs], [] => pure (.values vs)
   | .series, [], [(_, .idx _), (_, .floatT)] => pure (.series [])
@@ -144,6 +147,13 @@ def sworldWith (blk : String → Nat → Nat → Nat) (st : Strm) (keyMethod : S
   setItem _ _ _ := throw "TypeError"
   iter _ := throw "TypeError"
   unstar _ := throw "TypeError"
+  format
+    | .printable s => pure (.str s)
+    | .str s => pure (.str s)
+    | _ => throw "TypeError"
+  concat vs := match strs vs with
+    | some ss => pure (.str (String.join ss))
+    | Option.none => throw "TypeError"
   other _ := throw "Unsupported"
   throw cls := throw cls
   rethrow := throw "reraise"
@@ -151,12 +161,19 @@ def sworldWith (blk : String → Nat → Nat → Nat) (st : Strm) (keyMethod : S
 
 def sworld0 (blk : String → Nat → Nat → Nat) (st : Strm) : World M SV := sworldWith blk st fun _ => throw "TypeError"
 
+/-- the f-string form of the same string -/
+theorem inter4 (a b c d : String) : "_".intercalate [a, b, c, d] = ((a ++ "_" ++ b) ++ "_" ++ c) ++ "_" ++ d := by rfl
+
+theorem join_pieces (a b c d : String) : String.join [a, "_", b, "_", c, "_", d] = "_".intercalate [a, b, c, d] := by
+  rw [inter4]
+  simp [String.join, String.append_assoc]
+
 /-- `RandomnessStream._key(additional_key)` is the model's seed string -/
 theorem streamKey_refines (blk : String → Nat → Nat → Nat) (st : Strm) (ak : String) :
     Gen.Src.streamKey.run (sworld0 blk st) [("self", .self), ("additional_key", .printable ak)]
       = pure (SV.str (joinKey st.key st.time ak st.seed)) := by
   simp [Func.run, Gen.Src.streamKey, evalBlock, evalStmt, evalExpr, evalArgs, evalKws, sworld0, sworldWith, sGetAttr, sGlobal, sPrim,
-    strs, joinKey]
+    strs, joinKey, join_pieces, String.append_assoc]
 
 
 /-- the full world: `self._key(additional_key)` is a call into the translated source of `_key` -/
